@@ -91,6 +91,11 @@ impl PartialEq for StatusCode {
 }
 #[verifier::external_body] pub struct ProcessError { _opaque: () }
 #[verifier::external_body] pub struct IoError { _opaque: () }
+pub uninterp spec fn process_error_of_io(err: IoError) -> ProcessError;
+impl vstd::std_specs::convert::FromSpecImpl<IoError> for ProcessError {
+    open spec fn obeys_from_spec() -> bool { true }
+    open spec fn from_spec(v: IoError) -> ProcessError { process_error_of_io(v) }
+}
 impl From<IoError> for ProcessError {
     #[verifier::external_body] fn from(err: IoError) -> Self { unimplemented!() }
 }
@@ -290,6 +295,7 @@ impl RrdpArchive {
             final(self).objects() == old(self).objects(),
             r is Ok ==> final(self).state() == *state
                         && archive_committed(old(self).path_spec(), old(self).objects(), *state),
+            r is Err ==> local_archive_fault(old(self).path_spec()),
     { unimplemented!() }
 }
 
@@ -436,11 +442,59 @@ impl RrdpArchive {
                         && archive_committed(old(self).path_spec(), old(self).objects(), *state),
     { unimplemented!() }
 }
+// Monotone ghost fact: "an I/O or corruption error happened on the LOCAL archive file at `path`
+// during this call" (produced only by the archive operations' error results below).
+pub uninterp spec fn local_archive_fault(path: PathBuf) -> bool;
+
+// The temporary archive a snapshot is unpacked into (append-only): same map model.
 impl SnapshotRrdpArchive {
-    #[verifier::external_body] fn publish_object(&mut self, uri: &RsyncUri, content: &[u8]) -> Result<(), PublishError> { unimplemented!() }
-    #[verifier::external_body] fn publish_state(&mut self, state: &RepositoryState) -> Result<(), RunFailed> { unimplemented!() }
-    #[verifier::external_body] fn finalize(&mut self) -> Result<(), RunFailed> { unimplemented!() }
+    pub uninterp spec fn objects(&self) -> Map<RsyncUri, Seq<u8>>;
+    pub uninterp spec fn path_spec(&self) -> PathBuf;
+    #[verifier::external_body]
+    fn publish_object(&mut self, uri: &RsyncUri, content: &[u8]) -> (r: Result<(), PublishError>)
+        ensures
+            final(self).path_spec() == old(self).path_spec(),
+            match r {
+                Ok(()) => !old(self).objects().contains_key(*uri)
+                          && final(self).objects() == old(self).objects().insert(*uri, content@),
+                // a content fault of the served snapshot: the same URI published twice
+                Err(PublishError::AlreadyExists) => old(self).objects().contains_key(*uri)
+                          && final(self).objects() == old(self).objects(),
+                // a local fault
+                Err(PublishError::Archive(_)) => local_archive_fault(old(self).path_spec()),
+            },
+    { unimplemented!() }
+    #[verifier::external_body]
+    fn publish_state(&mut self, state: &RepositoryState) -> (r: Result<(), RunFailed>)
+        ensures final(self).path_spec() == old(self).path_spec(), final(self).objects() == old(self).objects(),
+                r is Err ==> local_archive_fault(old(self).path_spec()),
+    { unimplemented!() }
+    #[verifier::external_body]
+    fn finalize(&mut self) -> (r: Result<(), RunFailed>)
+        ensures final(self).path_spec() == old(self).path_spec(), final(self).objects() == old(self).objects(),
+                r is Err ==> local_archive_fault(old(self).path_spec()),
+    { unimplemented!() }
 }
+
+// rpki::rrdp::ProcessSnapshot::process (provided trait method), ASSUMED: it parses the bytes read
+// through `reader`, calls `meta` once and `publish` once per element, stops at the first error and
+// returns either that callback's error unchanged or a parse/read error converted with
+// From<ProcessError> / From<io::Error> (both yield SnapshotError::Rrdp, see update.rs). Instantiated
+// with the contracts PROVED here for SnapshotUpdate::{meta, publish}: meta never returns
+// RunFailed, publish returns RunFailed only after a local archive fault.
+impl<'a> SnapshotUpdate<'a> {
+    #[verifier::external_body]
+    fn process(&mut self, reader: &mut BufReader<HashRead<HttpResponse>>) -> (r: Result<(), SnapshotError>)
+        ensures
+            final(self).notify == old(self).notify, final(self).collector == old(self).collector,
+            final(self).archive.path_spec() == old(self).archive.path_spec(),
+            *final(final(self).archive) == *final(old(self).archive),
+            *final(final(self).metrics) == *final(old(self).metrics),
+            r matches Err(e) ==> (e is RunFailed ==> local_archive_fault(old(self).archive.path_spec())),
+    { unimplemented!() }
+}
+impl<'a, 'b, 'c> LimitedDataRead<'a, &'b mut ObjectReader<'c>> { }
+
 impl LogBookWriter {
     #[verifier::external_body] pub fn new(process_prefix: Option<FmtArgs>) -> LogBookWriter { unimplemented!() }
     #[verifier::external_body] pub fn error(&mut self, args: FmtArgs) { unimplemented!() }
@@ -513,3 +567,9 @@ pub assume_specification<T, E> [Result::<T, E>::unwrap_or] (a: Result<T, E>, def
 pub assume_specification<T, E, F: FnOnce(E) -> T> [Result::<T, E>::unwrap_or_else] (a: Result<T, E>, f: F) -> (r: T)
     requires a is Err ==> f.requires((a->Err_0,)),
     ensures a is Ok ==> r == a->Ok_0, a is Err ==> f.ensures((a->Err_0,), r);
+
+// std's reflexive `impl<T> From<T> for T` is the identity (ASSUMED for the one type it is used at:
+// the `?` after a call that already returns SnapshotError).
+pub axiom fn axiom_snapshot_error_from_self()
+    ensures <SnapshotError as vstd::std_specs::convert::FromSpec<SnapshotError>>::obeys_from_spec(),
+        forall|v: SnapshotError| #[trigger] <SnapshotError as vstd::std_specs::convert::FromSpec<SnapshotError>>::from_spec(v) == v;
